@@ -29,7 +29,8 @@ class C14(Prop):
                       "as coalesced write runs (which region is written when) otherwise; refused inputs: what was written is a prefix of the model's")
     TRUSTED = ["the recording / failing sink and the crash-point replay in harness/src/bin/c14.rs"]
     ASSUMPTIONS = ["the header operation (one write of 64+24*levels <= 304 bytes at offset 0) is atomic: a sink that tears it is outside the property",
-                   "a failing sink operation has no effect on the destination", "at most 10 zoom levels (the reserved directory)",
+                   "a failing sink operation has no effect on the destination",
+                   "bigBed crash points after the header operation: the total summary and the item count are not final and not asked",
                    "f32 -0.0 is not generated", "compressed files: the trace is compared by status only; crash points and faults are still enumerated"]
     PER_CASE_TIMEOUT = 120.0
 
